@@ -13,17 +13,17 @@ CHECKS = {
          "DESIGN.md §4 C09, §5"),
  "C15": ("exploration",
          "runtime monitor: order-law checker exhaustive over a boundary value pool (pairs and triples) + sum/sequence invariants on random result vectors + recording scorer with serial-numbered genomes",
-         "Score/Error/TestResult: reflexivity, antisymmetry, transitivity, agreement of cmp/partial_cmp/<,<=,>,>=,==,!=,max,min over all pairs and triples of a 10-value pool of i64 extremes and repeats, Score ascending, Error reversed, Score-vs-Error incomparable both ways; TestResults/EcIndividual: 2e6 (quick) / 4e7 (thorough) random vector pairs for total = sum, order kept, comparison delegation (From<IntoIterator> and FromIterator; i128 variant; every 400th vector has 9..100003 results with lengths around powers of two); IndividualGenerator / WithScorer / GenomeScorer: genome identity, scorer called exactly once with that genome, maker failure passes through.",
+         "Score/Error/TestResult: reflexivity, antisymmetry, transitivity, agreement of cmp/partial_cmp/<,<=,>,>=,==,!=,max,min over all pairs and triples of a 10-value pool of i64 extremes and repeats, Score ascending, Error reversed, Score-vs-Error incomparable both ways; TestResults/EcIndividual: 2e6 (quick) / 4e7 (thorough) random vector pairs for total = sum, order kept, comparison delegation (From<IntoIterator> and FromIterator; i128 variant; every 400th vector has 9..100003 results with lengths around powers of two); individuals and result collections over partially ordered results (TestResult<f64,f64> score-vs-error, NaN, plain f64; alone and nested) agree with the results' own partial order through every operator; IndividualGenerator / WithScorer / GenomeScorer: genome identity, scorer called exactly once with that genome, maker failure passes through.",
          "== of TestResults / EcIndividual is not required to agree with cmp; sums are kept in range.",
          "DESIGN.md §4 C15"),
  "C16": ("exploration",
          "runtime monitor: triple-run equality incl. generator fingerprints over a registry of every stochastic operation with seed-derived input sizes (second run on another thread, third run after a reversed call history, fixtures rebuilt), interleaved call histories on shared operator values, Push runs under every input declaration order with confusable input names",
-         "39 registry entries x 2e4 (quick) / 4e5 (thorough) seeds, input/output sizes 0..2049 derived from the seed (both sides of 32/64/128/256/1024); A(s1),B(s2),A(s1) histories on pipelines, UMAD, GeneGenerator, Lexicase; operator values shared by four threads; 2e4 / 4e5 random Push programs with up to 5 named inputs (short names, or long names agreeing on their first 15/16/23/32/64 bytes, prefixes, case/whitespace/normalisation variants, the empty name) run under all declaration orders (<= 120) comparing results and PushState equality.",
+         "39 registry entries x 2e4 (quick) / 4e5 (thorough) seeds, input/output sizes 0..2049 derived from the seed (both sides of 32/64/128/256/1024); A(s1),B(s2),A(s1) histories on pipelines, UMAD, GeneGenerator, Lexicase, where B is in turn an ordinary call, a call on an empty population / genome and a call that fails part-way (an individual with fewer results than lexicase looks at); operator values shared by four threads; 2e4 / 4e5 random Push programs with up to 5 named inputs (short names, or long names agreeing on their first 15/16/23/32/64 bytes, prefixes, case/whitespace/normalisation variants, the empty name) run under all declaration orders (<= 120) comparing results and PushState equality.",
          "A hidden randomness source would have to coincide across two runs on two threads to go unnoticed; Generation stepping deliberately uses the thread RNG and belongs to C09.",
          "DESIGN.md §4 C16"),
  "C17": ("exploration",
          "runtime monitor: concrete-vs-erased differential over all 28 generated pointer flavours of the five erasable traits, with the default boxed error type and the identity error conversion; preceded by rustc's accept/reject verdict on a generated probe crate with one function per (trait x pointer x auto-trait) flavour",
-         "a DynWeighted list with a single erased member must behave like the member where the outcome is stream-independent; rustc must accept all 140 generated functions that require a flavour to implement the wrapped trait (a rejected one is C17/flavour-not-supported). Every round makes 280 erased calls (5 traits x 28 flavours x 2 error conversions) around run-time chosen real implementations and succeeding/failing probes and compares value (selectors: element identity), error Display text and source chain, random-stream fingerprint and wrapped-call count with the concrete call; 4e4 (quick) / 1e6 (thorough) rounds. The (trait x flavour) grid is exhaustive in every round.",
+         "a DynWeighted list with a single erased member must behave like the member where the outcome is stream-independent; lists nested in lists (depth 1-3) must deliver the innermost failure wrapped exactly once per level; rustc must accept all 140 generated functions that require a flavour to implement the wrapped trait (a rejected one is C17/flavour-not-supported). Every round makes 280 erased calls (5 traits x 28 flavours x 2 error conversions) around run-time chosen real implementations and succeeding/failing probes and compares value (selectors: element identity), error Display text and source chain, random-stream fingerprint and wrapped-call count with the concrete call; 4e4 (quick) / 1e6 (thorough) rounds. The (trait x flavour) grid is exhaustive in every round.",
          "Values are compared through Debug renderings. The flavour-existence half is decided by observing the compiler (as the C19 compile-time clause).",
          "DESIGN.md §4 C17"),
  "C18": ("exploration",
@@ -58,7 +58,7 @@ CHECKS = {
          "DESIGN.md §4 C11"),
  "C12": ("exploration",
          "runtime statistical monitor (Bernstein 1e-10 per category; p=0/p=1 exact; Hoeffding for mean child length) over 285 configurations of rates, lengths and generators",
-         "Per-gene flip frequency and adjacent-pair joint frequency for WithRate / WithOneOverLength; UMAD per-position deletion, aggregated additions a(1-d), the full joint law on one-gene parents, empty-parent additions for all three constructors, mean child length incl. d=a/(1+a); uniform crossover 1/2 and pair independence on four flavours; Bitstring::random*, BoolGenerator; GeneGenerator through all six public constructors: close frequency (explicit and default 1/(n+1), n=1..31) and instruction frequencies (uniform and skewed, direct and via a Plushy collection generator); lengths 100/200/1000 for bit-flip, random bitstrings and uniform crossover; the 1/length rate also on 3000..70000 genes (aggregated). 2e6 (quick) / 4e7 (thorough) samples per configuration before length scaling.",
+         "Per-gene flip frequency and adjacent-pair joint frequency for WithRate / WithOneOverLength; UMAD (through all three constructors, the empty-genome rate set far from both other rates) per-position deletion, aggregated additions a(1-d), the full joint law on one-gene parents, empty-parent additions for all three constructors, mean child length incl. d=a/(1+a); uniform crossover 1/2 and pair independence on four flavours; Bitstring::random*, BoolGenerator; GeneGenerator through all six public constructors: close frequency (explicit and default 1/(n+1), n=1..31) and instruction frequencies (uniform and skewed, direct and via a Plushy collection generator); lengths 100/200/1000 for bit-flip, random bitstrings and uniform crossover; the 1/length rate also on 3000..70000 genes (aggregated). 2e6 (quick) / 4e7 (thorough) samples per configuration before length scaling.",
          "A bias below the stated resolution is invisible.",
          "DESIGN.md §4 C12"),
  "C13": ("exploration",
@@ -139,7 +139,7 @@ def main():
              "kind_free_text": "cargo workspace of runtime monitors, one binary per property, (reference models, probe operators, recording RNG, statistical monitor, event-log checkers; Miri/TSan for C09) that path-depends on /repo/packages/* and is rebuilt by ./check on every run"},
         ],
         "checks": checks,
-        "notes": "Runtime monitoring only. Verdicts are three-valued; INCONCLUSIVE lines never fail a run, a run that observed nothing exits 3. known_findings.json lists repaired (fixed:) and open findings; only open entries with an exact signature are downgraded to KNOWN-FINDING lines.",
+        "notes": "Runtime monitoring only. Verdicts are three-valued; INCONCLUSIVE lines never fail a run, a run that observed nothing exits 3. known_findings.json lists repaired (fixed:) and open findings; only open entries with an exact signature are downgraded to KNOWN-FINDING lines. Every check runs a hang watchdog: a worker thread that burns more than 300 (quick) / 900 (thorough) CPU-seconds inside one monitored evaluation is reported as <ID>/hang; the largest gap seen is written into the evidence (coverage.hang_watchdog).",
         "not_applicable": [{"property_id": p, "reason": PENDING_REASON} for p in ALL if p not in CHECKS],
     }
     with open(os.path.join(ROOT, "MANIFEST.json"), "w") as f:
